@@ -490,4 +490,45 @@ def rstep (r : Recv) : ROp → Recv
 
 def rrun (r : Recv) (ops : List ROp) : Recv := ops.foldl rstep r
 
+/-! ### HPACK dynamic-table-size signalling (RFC 7541 §4.2 / §6.3)
+
+`ConnectionH2.pending_table_size_update` is set by the SETTINGS handler (the
+encoder is resized at once); every write pass hands a *copy* to the converter,
+which prepends the update to the first header block of the pass
+(`emit_pending_size_update_if_new_block`); only when the converter reports
+`size_update_emitted` does `write_streams` clear the connection-side mirror. -/
+
+structure Hp where
+  /-- `pending_table_size_update` -/
+  pending : Option Nat
+  /-- the encoder's table size (`encoder.set_max_table_size`) -/
+  encSize : Nat
+  /-- ghost: the size last announced on the wire, i.e. what the peer's decoder uses -/
+  announced : Nat
+deriving Repr, DecidableEq
+
+def Hp.init : Hp := { pending := none, encSize := 4096, announced := 4096 }
+
+inductive HpOp
+  /-- peer SETTINGS_HEADER_TABLE_SIZE `v`, capped to `cap` -/
+  | settings (v cap : Nat)
+  /-- one write pass; `headers`: it contains at least one header block -/
+  | pass (headers : Bool)
+deriving Repr, DecidableEq
+
+/-- `(state, size update written at the start of this pass's first header block)`.
+    `keep = true` is the code (copy + clear on `size_update_emitted`);
+    `keep = false` moves the signal into the converter (`take()`) without the
+    post-pass bookkeeping. -/
+def hpStep (keep : Bool) (h : Hp) : HpOp → Hp × Option Nat
+  | .settings v cap => ({ h with pending := some (min v cap), encSize := min v cap }, none)
+  | .pass headers =>
+    match h.pending with
+    | none => (h, none)
+    | some v =>
+      if headers then ({ h with pending := none, announced := v }, some v)
+      else if keep then (h, none) else ({ h with pending := none }, none)
+
+def hpRun (keep : Bool) (h : Hp) (ops : List HpOp) : Hp := ops.foldl (fun s o => (hpStep keep s o).1) h
+
 end Sozu.H2Flow
